@@ -349,3 +349,50 @@ def replay_decomposition(obligation, I):
                 J[f"p{t}"] = 0.3 + 0.37 * k - 0.8 * t
             bat.append(J)
     run_replay(obligation, I, chk, bat)
+
+
+# ----------------------------------------------------------------------------- replay entry for the C03 Gate.merge contracts
+def replay_merge(obligation, I):
+    """counter-model of contracts/c03_optimize.py Gate.merge/<class>: the two gates are merged for real; the merged gate
+    (or nothing, for None) and the pair applied in sequence must prepare the same Gaussian state; the operands are untouched"""
+    from native.common import run_replay
+    from strawberryfields.ops import MergeFailure
+
+    def chk(inp):
+        cls, npar, ns = inp["cls"], int(inp["npar"]), int(inp["ns"])
+        shared = [float(inp.get(f"s{k}", 0.2 * k)) for k in range(1, npar)]
+        a0, b0 = float(inp.get("a0", 0.3)), float(inp.get("b0", -0.5))
+        C = getattr(ops, cls)
+        A = C(*([a0] + shared)) if npar else C()
+        B = C(*([b0] + shared)) if npar else C()
+        A.dagger, B.dagger = bool(inp.get("dagger_a", False)), bool(inp.get("dagger_b", False))
+        pa, pb = list(A.p), list(B.p)
+        try:
+            res = A.merge(B)
+        except MergeFailure:
+            return None
+        if list(A.p) != pa or list(B.p) != pb:
+            return f"{cls}.merge modified its operands: {A.p} / {B.p}"
+
+        def run(seq):
+            n = ns + 1
+            prog = sf.Program(n)
+            with prog.context as q:
+                base_circuit(q, n, Ref(n))
+                for g in seq:
+                    g | tuple(q[k] for k in range(ns))
+            st = sf.Engine("gaussian").run(prog).state
+            return st.means(), st.cov()
+        m0, V0 = run([A, B])
+        m1, V1 = run([res] if res is not None else [])
+        err = max(abs(m0 - m1).max(), abs(V0 - V1).max())
+        if err > 1e-6:
+            return f"{A} merged with {B} gives {res}, which differs from applying both (max difference {err:.3g})"
+    bat = []
+    if I:
+        for da in (False, True):
+            for db in (False, True):
+                for a0, b0 in ((0.3, -0.5), (0.4, 0.4), (0.25, -0.25), (-0.7, 0.2)):
+                    J = dict(I); J.update(dagger_a=da, dagger_b=db, a0=a0, b0=b0)
+                    bat.append(J)
+    run_replay(obligation, I, chk, bat)
